@@ -1,6 +1,6 @@
 #!/bin/sh
 # run thorough tiers sequentially in an isolated overlay (own work dir, repo snapshot)
-export VERIF_REPO=$VP_RUN_REPO VERIF_WORK=/root/.cache/undermoon-verif-bg VERIF_JOBS=6
+export VERIF_REPO=$VP_RUN_REPO VERIF_WORK=${VERIF_WORK:-/root/.cache/undermoon-verif-bg} VERIF_JOBS=${VERIF_JOBS:-6}
 for id in "$@"; do
   /usr/bin/time -f "$id wall=%es" ./check $id --tier thorough > thorough_$id.log 2>&1; rc=$?
   echo "$id exit=$rc $(grep -E 'obligations' thorough_$id.log | cut -c1-200)"
